@@ -111,11 +111,13 @@ class C04(Check):
         if wants is None:
             return got
         scale = jack.estimator_scale(terms)
-        ok = np.isfinite(scale)
         # a term that is infinite (counts over a zero weight product) cannot occur in a real
-        # measurement and makes algebraically equal forms of the estimator differ: not judged
-        for t in terms.values():
-            ok &= np.isfinite(t) | np.isnan(t)
+        # measurement and makes algebraically equal forms of the estimator differ: not judged.
+        # A term that is 0/0 (a sample without objects in that bin) makes the estimate undefined:
+        # judged through the NaN pattern.
+        has_inf = np.any([np.isinf(t) for t in terms.values()], axis=0)
+        has_nan = np.any([np.isnan(t) for t in terms.values()], axis=0)
+        ok = ~has_inf & (np.isfinite(scale) | has_nan)
         matches = []
         for w in wants:
             fin = ok & np.isfinite(w)
@@ -131,6 +133,24 @@ class C04(Check):
     def _estimator(self, case, rng, bad, counters):
         nb, npatch = int(rng.integers(1, 9)), int(rng.integers(2, 13))
         cf = gen.gen_corrfunc(rng, nb, npatch, case["auto"], members=case["members"])
+        if case_bits(case, "empty-data-bin") % 4 == 0:
+            # a redshift bin without any data object (binning wider than the sample) while the randoms populate
+            # it: the data terms are 0/0 there, the estimate is undefined (NaN), never a finite number
+            from yaw.correlation.corrfunc import CorrFunc
+            from yaw.correlation.paircounts import NormalisedCounts, PatchedCounts, PatchedSumWeights
+
+            b = int(rng.integers(nb))
+            parts = {}
+            for k, nc in cf.to_dict().items():
+                cnt, sw1, sw2 = nc.counts.counts.copy(), nc.sum_weights.sum_weights1.copy(), nc.sum_weights.sum_weights2.copy()
+                if k in ("dd", "dr"):
+                    cnt[b] = 0.0
+                    sw1[b] = 0.0
+                    if k == "dd" and case["auto"]:
+                        sw2[b] = 0.0
+                parts[k] = NormalisedCounts(PatchedCounts(cf.binning, cnt, auto=nc.auto), PatchedSumWeights(cf.binning, sw1, sw2, auto=nc.auto))
+            cf = CorrFunc(**parts)
+            counters["empty_data_bins"] = counters.get("empty_data_bins", 0) + 1
         self._check_estimator(cf, bad, counters, touch=case_bits(case, "touch") % 2 == 0)
 
     def _nz(self, case, rng, bad, counters):
@@ -237,6 +257,7 @@ class C04(Check):
         cfg = Configuration.create(rmin=0.05, rmax=0.8, unit="deg", edges=edges, closed=str(rng.choice(["left", "right"])))
 
         sparse = bool(rng.random() < 0.6)
+        empty_ref_bin = case_bits(case, "empty-ref-bin") % 3 == 0  # no reference object in the first bin at all
 
         def mk(tmp, name, n, z, w):
             xyz, src = cats.points_around(rng, centres, n, r)
@@ -247,6 +268,8 @@ class C04(Check):
             if z and sparse:
                 # the first redshift bin is empty in the first patch (and nearly empty elsewhere)
                 zz[(src == 0) & (zz < 0.4)] = rng.uniform(0.41, 1.0, int(((src == 0) & (zz < 0.4)).sum()))
+            if z and empty_ref_bin and name == "ref":
+                zz[zz <= 0.4] = rng.uniform(0.41, 1.0, int((zz <= 0.4).sum()))
             return cats.create(tmp / name, cats.table(ra, dec, z=zz,
                                                       w=rng.uniform(0.5, 2, len(ra)) if w else None), centers=cobj)
 
